@@ -990,6 +990,7 @@ func Explore(prog *ssa.Program, fn *ssa.Function, opts *Options) *HarnessResult 
 			}
 			defer solver.Close()
 			solver.Fallbacks = opts.Fallbacks
+			solver.Deadline = opts.Deadline
 			in := NewInterp(prog, solver, opts)
 			in.ex = ex
 			flush := func() {
